@@ -311,6 +311,7 @@ def run(sections, mngr2proc, halt_pc, max_steps=100000, keep_trace=False):
       if addr & 3: raise Undefined(f"unaligned {op} address {addr:#x} at {pc:#x}")
       if addr > MEM_SIZE - 4: raise Undefined(f"{op} address {addr:#x} outside 1 MB at {pc:#x}")
       if ins[2] < 0: bump("mem_neg_offset")
+      if ins[3] == 0: bump("mem_base_x0")
       if op == "lw":
         v = mem[addr] | (mem[addr + 1] << 8) | (mem[addr + 2] << 16) | (mem[addr + 3] << 24)
         dest = ins[1]
